@@ -46,6 +46,88 @@ func runGuarded(m *machine.M, n int) (stoppedAtUndefined bool) {
 	return false
 }
 
+// ---- (f) I/O writes at every phase of a busy machine --------------------------------------------
+
+// c11IO: from a busy machine (LCD on with objects, all four sound channels playing at the given frequency,
+// timer running fast, an OAM DMA in flight) one I/O register is written with one value after Delay machine cycles —
+// every delay of a window that covers whole periods of the sound generators, a scan line and timer periods — and
+// written a second time Gap cycles later; then the machine runs on. Nothing may crash, whatever the phase.
+type c11IO struct {
+	Reg  uint16 `json:"reg"`
+	Freq int    `json:"freq"` // 11-bit frequency of channels 1-3
+}
+
+var c11IOVals = []uint8{0x00, 0xff, 0x80, 0x87, 0xc7, 0x40, 0x08, 0x7f, 0x01, 0xf0}
+
+func c11IOSetup(freq int) *machine.M {
+	m := machine.New(machine.Image(0x03, 1, 3, 4), machine.Opts{})
+	w := m.Map.Write
+	for i := 0; i < 40; i++ { // objects on many lines
+		w(0xc100+uint16(4*i), uint8(16+i*3))
+		w(0xc101+uint16(4*i), uint8(8+i*4))
+		w(0xc102+uint16(4*i), uint8(i))
+		w(0xc103+uint16(4*i), uint8(i<<4))
+	}
+	w(0xff26, 0x80)
+	w(0xff25, 0xff)
+	w(0xff24, 0x77)
+	for i := 0; i < 16; i++ {
+		w(0xff30+uint16(i), uint8(i*17+1))
+	}
+	lo, hi := uint8(freq), uint8(freq>>8)&7
+	for _, x := range [][2]uint16{{0xff10, 0x11}, {0xff11, 0x80}, {0xff12, 0xf3}, {0xff13, uint16(lo)}, {0xff14, uint16(0x80 | hi)},
+		{0xff16, 0x40}, {0xff17, 0xf3}, {0xff18, uint16(lo)}, {0xff19, uint16(0x80 | hi)},
+		{0xff1a, 0x80}, {0xff1b, 0x00}, {0xff1c, 0x20}, {0xff1d, uint16(lo)}, {0xff1e, uint16(0x80 | hi)},
+		{0xff20, 0x00}, {0xff21, 0xf3}, {0xff22, 0x00}, {0xff23, 0x80},
+		{0xff06, 0xf0}, {0xff05, 0xf0}, {0xff07, 0x05}, {0xffff, 0x1f}, {0xff41, 0x78}, {0xff45, 0x02}, {0xff40, 0x93}} {
+		w(x[0], uint8(x[1]))
+	}
+	// a program that keeps the CPU busy with interrupts enabled (handlers are NOPs in ROM... the image's bytes; harmless)
+	for i, b := range []uint8{0xfb, 0x04, 0x18, 0xfd} { // EI; INC B; JR -3
+		w(0xc000+uint16(i), b)
+	}
+	r := m.CPU.VGet()
+	r.PC, r.SP = 0xc000, 0xdff0
+	m.CPU.VSet(r)
+	for i := 0; i < 300; i++ {
+		m.Hardware() // let the generators run before the CPU starts
+	}
+	w(0xff46, 0xc1)
+	return m
+}
+
+func c11IOCheck(l *explore.Local, _ struct{}, c c11IO) *explore.Fail {
+	base := c11IOSetup(c.Freq)
+	sp, so, si, st, sc, sm, sa := *base.P, *base.OAM, *base.I, *base.T, *base.CPU, *base.Map, base.A.VSave()
+	for delay := 0; delay < 132; delay++ {
+		for _, v := range c11IOVals {
+			for _, gap := range []int{-1, 0, 1, 7} {
+				*base.P, *base.OAM, *base.I, *base.T, *base.CPU, *base.Map = sp, so, si, st, sc, sm
+				base.A.VLoad(sa)
+				m := base
+				for i := 0; i < delay; i++ {
+					m.Cycle()
+				}
+				m.Map.Write(c.Reg, v)
+				if gap >= 0 {
+					for i := 0; i < gap; i++ {
+						m.Cycle()
+					}
+					m.Map.Write(c.Reg, v|0x80)
+				}
+				if runGuarded(m, 160) {
+					continue
+				}
+				_ = m.Map.Read(c.Reg)
+				l.Trans(1)
+			}
+		}
+	}
+	l.Eval(1)
+	l.Outcome(uint64(c.Reg)<<16 | uint64(c.Freq))
+	return nil
+}
+
 // ---- (a) image space ---------------------------------------------------------------------
 
 type c11Image struct {
@@ -331,7 +413,7 @@ type c11Undef struct {
 func init() {
 	register("C11", "fault_enumeration", func(c *Ctx) {
 		if c.R != nil {
-			c.R.Rule = "complete products, each case run on the real code with panics recovered per case: (a) cartridge-type byte (all 256) x ROM-size code x RAM-size code x image length class -> construct, then windows/control writes/selectors/128 CPU cycles; (b) every supported cartridge x every control-region representative x all 256 values, each followed by every (region, value-class) second write and all window accesses; (c) bus sweep: read all 64 KiB, write 00/FF everywhere, DMA from every page, LCD on/off, RAM on/off; (d) every opcode (512 encodings x 8 operand pairs) and every ordered pair from a representative set, pointers/SP/PC placed in 22 region classes, on each controller type; (e) the 11 undefined opcodes must exit with status 1 and the message (sub-processes)"
+			c.R.Rule = "complete products, each case run on the real code with panics recovered per case: (a) cartridge-type byte (all 256) x ROM-size code x RAM-size code x image length class -> construct, then windows/control writes/selectors/128 CPU cycles; (b) every supported cartridge x every control-region representative x all 256 values, each followed by every (region, value-class) second write and all window accesses; (c) bus sweep: read all 64 KiB, write 00/FF everywhere, DMA from every page, LCD on/off, RAM on/off; (d) every opcode (512 encodings x 8 operand pairs) and every ordered pair from a representative set, pointers/SP/PC placed in 22 region classes, on each controller type; (f) from a busy machine every I/O register written with 10 values after every delay 0-131 (and again 0, 1, 7 cycles later); (e) the 11 undefined opcodes must exit with status 1 and the message (sub-processes)"
 			c.R.Assumptions = []string{"a panic inside the constructor counts as 'fails during construction'", "programs are stopped by the harness before an undefined opcode executes (the deliberate stop is checked separately)", "crash = Go panic or process exit; memory growth and non-termination are out of scope (there is no allocation or unbounded loop on the emulation path)"}
 		}
 		supported := []cartSpec{}
@@ -429,6 +511,24 @@ func init() {
 					}
 				}
 			}, func() struct{} { return struct{}{} }, c11ProgCheck)
+		explore.Product(c.R, "io-writes-at-every-phase", explore.PartOpt{Bound: "one write (and a second one 0, 1 or 7 cycles later) after every delay 0-131 from a busy machine, then 160 cycles", Domain: "every register FF00-FF7F and IE x 10 values x sound frequencies {7FF, 7FE, 7FD, 7F8, 700} (wave period 16 to 4,096 cycles)"},
+			func(yield func(c11IO) bool) {
+				freqs := []int{0x7ff, 0x7fe, 0x7fd, 0x7f8, 0x700}
+				for _, f := range freqs {
+					for reg := 0xff00; reg <= 0xff80; reg++ {
+						a := uint16(reg)
+						if reg == 0xff80 {
+							a = 0xffff
+						}
+						if !c.Thorough() && f != 0x7fe && f != 0x7ff && !(a >= 0xff10 && a <= 0xff3f) {
+							continue
+						}
+						if !yield(c11IO{Reg: a, Freq: f}) {
+							return
+						}
+					}
+				}
+			}, func() struct{} { return struct{}{} }, c11IOCheck)
 		explore.Product(c.R, "undefined-opcodes", explore.PartOpt{Workers: 4, Bound: "each of the 11 undefined opcodes, in a sub-process", Domain: "must exit with status 1 and print the message"},
 			func(yield func(c11Undef) bool) {
 				for op := range undefinedOps {
